@@ -1,5 +1,6 @@
 import CnvVerif.Driver.Json
 import CnvVerif.Model.Tile
+import CnvVerif.Model.TileFallback
 open Lean
 namespace CnvVerif.Drv
 
@@ -56,6 +57,25 @@ def handleTile (op : String) (inp : Json) (impl : Option Json) : R (Option Json)
     let rows ← getList getBinRaw (← fld inp "bins")
     let arms := byArm (rows.map (·.1))
     pure (some (obj [("out", arrJ (arms.map fun a => natJ a.length))]))
+  | "transfer" =>
+    -- transfer_fields(segments, cnarr) called on its own: the fallback branches (Model/TileFallback.lean)
+    let cn := (← getList getBinRaw (← fld inp "cn")).map (·.1)
+    let segs ← getList getSegO (← fld inp "segs")
+    let hasWeight ← getBool (← fld inp "has_weight")
+    match transferFields hasWeight cn segs with
+    | .unchanged o => pure (some (obj [("kind", strJ "unchanged"), ("out", arrJ (o.map segOJ))]))
+    | .nullRow r => pure (some (obj [("kind", strJ "null"), ("out", arrJ [segOJ r])]))
+    | .table o =>
+      -- the Lean spec oracle on the real rows (they carry every column once gene / weight / depth are assigned)
+      let spec ← (match impl with
+        | some ij =>
+          match optFld ij "segs", optFld ij "kind" with
+          | some sj, some (Json.str "rows") => do
+            let rows ← getList getSegO sj
+            pure (arrJ ((transferSpec hasWeight cn rows).map strJ))
+          | _, _ => pure Json.null
+        | none => pure Json.null)
+      pure (some (obj [("kind", strJ "table"), ("out", arrJ (o.map segOJ)), ("spec", spec)]))
   | _ => pure none
 
 end CnvVerif.Drv
